@@ -155,10 +155,15 @@ void history(vh::rng& r, hashes& h, const vh::args& a) {
   for (u64 op = 0; op < nops; ++op) {
     const auto x = r.below(100);
     const int phase = static_cast<int>((op * 3) / nops);  // fill, churn, drain
-    const int w_ins = phase == 0 ? 60 : (phase == 1 ? 36 : 12), w_rem = phase == 0 ? 8 : (phase == 1 ? 36 : 58);
+    int w_ins = phase == 0 ? 60 : (phase == 1 ? 36 : 12), w_rem = phase == 0 ? 8 : (phase == 1 ? 36 : 58);
+    if (full256) {  // fill to the brim, hover at the 255/256 boundary, refill so that the destructor meets the full node
+      const bool closing = op + 320 >= nops;
+      if (op < 420 || closing) { w_ins = 93; w_rem = closing ? 0 : 2; }
+      else { w_ins = 45; w_rem = 20; }
+    }
     if (x < static_cast<u64>(w_ins)) {
       bytes k = r.pick(uni.keys);
-      if (full256 && phase < 2 && model.count(k) != 0) { for (const auto& c : uni.keys) if (model.count(c) == 0) { k = c; break; } }
+      if (full256 && model.count(k) != 0) { for (const auto& c : uni.keys) if (model.count(c) == 0) { k = c; break; } }
       if (bytestring && !vu::admissible_insert(model, k)) continue;
       bytes v(r.below(12), '\0');
       const auto id = ++vcount;
@@ -210,8 +215,10 @@ void history(vh::rng& r, hashes& h, const vh::args& a) {
       }
     }
     fold_stats(db, h);
-    if (r.chance(full256 && model.size() == uni.keys.size() ? 0.03 : 0.002)) { db.clear(); model.clear(); h.trace = vh::hash_combine(h.trace, 0x600); }
+    if (r.chance(full256 && model.size() == uni.keys.size() && op + 320 < nops ? 0.02 : 0.002)) { db.clear(); model.clear(); h.trace = vh::hash_combine(h.trace, 0x600); }
+    if (full256 && model.size() == uni.keys.size()) rep().count("steps_on_completely_full_I256");
   }
+  if (full256 && model.size() == uni.keys.size()) rep().count("destroyed_with_completely_full_I256");
   // final content
   fold_scan(db, h, 0, true, bytes(), bytes(), static_cast<std::size_t>(-1));
   fold_scan(db, h, 0, false, bytes(), bytes(), static_cast<std::size_t>(-1));
